@@ -587,6 +587,12 @@ def _fuse(stmts):
     return out
 
 
+_NEGATED_OP = {ast.Eq: ast.NotEq, ast.NotEq: ast.Eq, ast.Is: ast.IsNot,
+               ast.IsNot: ast.Is, ast.In: ast.NotIn, ast.NotIn: ast.In,
+               ast.Lt: ast.GtE, ast.GtE: ast.Lt, ast.Gt: ast.LtE,
+               ast.LtE: ast.Gt}
+
+
 def _accumulate(init, loop):
     if not (isinstance(init, ast.Assign) and len(init.targets) == 1 and
             isinstance(init.targets[0], ast.Name) and
@@ -604,10 +610,29 @@ def _accumulate(init, loop):
         kind = {'set': 'set', 'list': 'list'}.get(val.func.id)
     elif isinstance(val, ast.List) and not val.elts:
         kind = 'list'
-    if kind is None or len(loop.body) != 1:
+    if kind is None:
         return None
-    inner = loop.body[0]
+    # guard clauses `if C: continue` in front of the collecting statement
+    # are filters `not C`
+    body = list(loop.body)
     conds = []
+    while len(body) > 1 and isinstance(body[0], ast.If) and \
+            not body[0].orelse and len(body[0].body) == 1 and \
+            isinstance(body[0].body[0], ast.Continue):
+        test = body[0].test
+        if isinstance(test, ast.UnaryOp) and isinstance(test.op, ast.Not):
+            conds.append(test.operand)
+        elif isinstance(test, ast.Compare) and len(test.ops) == 1 and \
+                type(test.ops[0]) in _NEGATED_OP:
+            conds.append(ast.Compare(
+                left=test.left, ops=[_NEGATED_OP[type(test.ops[0])]()],
+                comparators=test.comparators))
+        else:
+            conds.append(ast.UnaryOp(op=ast.Not(), operand=test))
+        body = body[1:]
+    if len(body) != 1:
+        return None
+    inner = body[0]
     while isinstance(inner, ast.If) and not inner.orelse and \
             len(inner.body) == 1:
         conds.append(inner.test)
@@ -1890,6 +1915,17 @@ def fold_test_flags(fdef):
                 if in_test == 1 and not inner_scopes and (
                         only_here or not has_call(st.value)):
                     value = st.value
+                    # in truth-value position bool(E) is E
+                    plain = nxt.test
+                    if isinstance(plain, ast.UnaryOp) and \
+                            isinstance(plain.op, ast.Not):
+                        plain = plain.operand
+                    if isinstance(plain, ast.Name) and \
+                            isinstance(value, ast.Call) and \
+                            isinstance(value.func, ast.Name) and \
+                            value.func.id == 'bool' and \
+                            len(value.args) == 1 and not value.keywords:
+                        value = value.args[0]
 
                     class Sub(ast.NodeTransformer):
                         def visit_Name(self, node):
